@@ -470,6 +470,16 @@ func TestVerifPMM(t *testing.T) {
 			c.checkConfig(cfg, "graph")
 		})
 	})
+	// the bootloader may use memory-map entries larger than 24 bytes: a subset of the layouts again with 40-byte entries
+	nE := 0
+	vfLayoutsSharded([]uint64{0x100000}, vfPMMShapes([]uint64{0, 1, 2, 3}, []uint64{0, 0x800}, []uint64{0, 0x400}, []uint32{1, 2}), 2, run.Mine, func(regs []vfRegion) {
+		vfPMMConfigs(regs, []int{0, 2}, []uint64{0x10}, func(cfg vfConfig) {
+			cfg.EntrySize = 40
+			nE++
+			c.checkConfig(cfg, "graph")
+		})
+	})
+	run.Count("graph_configs_entry_size_40", int64(nE))
 	run.Count("graph_configs", int64(nA))
 	// Tier A3 (thorough): three regions, reduced shapes
 	if run.Thorough() {
@@ -500,6 +510,6 @@ func TestVerifPMM(t *testing.T) {
 	run.Count("drain_configs", int64(nB))
 	run.Traces = run.Transitions
 	run.Finish(true,
-		fmt.Sprintf("all memory maps of <=%d regions (3 in thorough, reduced shapes) over frames{0,1,2,3} x gaps x head/tail skew x types %v x 3 bases, every kernel placement (start/middle/end/2 pages/covering), early extras %v: held-set graph to a fixed point; plus word-boundary pools {1,63,64,65,128,129} frames: drain, single and pairwise frees", maxRegions, types, extras),
+		fmt.Sprintf("all memory maps of <=%d regions (3 in thorough, reduced shapes) over frames{0,1,2,3} x gaps x head/tail skew x types %v x 3 bases, every kernel placement (start/middle/end/2 pages/covering), early extras %v, memory-map entry sizes 24 and 40: held-set graph to a fixed point; plus word-boundary pools {1,63,64,65,128,129} frames: drain, single and pairwise frees", maxRegions, types, extras),
 		"a configuration is distinct by (map, kernel, extras) and non-trivial if at least two frames were held at once (graph) or the pool was drained (drain)")
 }
